@@ -68,6 +68,7 @@ type FnCtx struct {
 	countLib bool
 	lamCache map[string]Term
 	wordAx  map[string]bool
+	opaqueDone map[string]bool
 }
 
 func (c *FnCtx) declare(name string, sort Sort) Term {
